@@ -191,6 +191,7 @@ typedef struct Conn {
 	NetKnobs knobs;
 	Rng net;
 	int interpose;              /* record-aware forwarding on */
+	int check_tx;               /* both ends are TLS record layers: check what they offer to send() */
 	int hs_phase[2];            /* set by endpoints: 0 handshake, 1 done (allows boundary EAGAIN) */
 	void *user;
 	/* interposer callback: called with one complete record from the sender;
@@ -199,6 +200,7 @@ typedef struct Conn {
 } Conn;
 
 extern Conn g_conns[NET_MAX_CONN];
+extern char g_net_violation[160];
 extern int g_nconns;
 
 void  net_reset(void);
